@@ -38,6 +38,59 @@ MAP
   END
 END'''
 
+TEXT2 = '''# DA
+MAP
+  EXTENT 0 0 10 10 # DB
+  SIZE 100 200 /* DC */
+  # DD
+  LAYER
+    NAME "l1" # DE
+    # DF
+    CONNECTIONOPTIONS
+      "FLATTEN" "YES"
+    END
+    STATUS ON # DH
+  END
+  # DI
+  # DJ
+  LAYER
+    NAME "l2" # DK
+    /* DL */
+    CLASS
+      # DM
+      STYLE
+        COLOR 1 2 3 # DN
+        WIDTH 2.5 # DO
+      END
+      # DP
+      STYLE
+        SYMBOL "s" # DQ
+      END
+      # DR
+      LABEL
+        SIZE 8 # DS
+      END
+    END
+    # DT
+    CLASS
+      NAME "c2" # DU
+    END
+  END
+  # DV
+  LEGEND
+    STATUS ON # DW
+  END
+END'''
+
+# second cover: two of everything that is stored as a list (LAYER, CLASS, STYLE), CONNECTIONOPTIONS, numeric / multi-value keywords,
+# two comment lines above one opener, a C comment above an opener and at the end of a keyword line
+EXPECT2 = ['{DA}', 'MAP', '    EXTENT 0 0 10 10 {DB}', '    SIZE 100 200 {DC}', '    {DD}', '    LAYER', '        NAME "l1" {DE}', '    {DF}',
+           '        CONNECTIONOPTIONS', '            "flatten" "YES"', '        END', '        STATUS ON {DH}', '    END', '    {DI}\n    {DJ}', '    LAYER',
+           '        NAME "l2" {DK}', '        {DL}', '        CLASS', '            {DM}', '            STYLE', '                COLOR 1 2 3 {DN}',
+           '                WIDTH 2.5 {DO}', '            END', '            {DP}', '            STYLE', '                SYMBOL "s" {DQ}', '            END',
+           '            {DR}', '            LABEL', '                SIZE 8 {DS}', '            END', '        END', '        {DT}', '        CLASS',
+           '            NAME "c2" {DU}', '        END', '    END', '    {DV}', '    LEGEND', '        STATUS ON {DW}', '    END', 'END']
+
 COMMENTS = ["CA", "CB", "CC", "CD", "CE", "CF", "CG", "CH", "CI", "CJ", "CK", "CL"]
 
 # committed expectation (docs/comments.rst placements); {X} = the comment as written in the source
@@ -79,35 +132,42 @@ INFO = {
 
 def obligations(tier, seed):
     L = 2 if tier == "quick" else 4
+    return [_cover("cover", TEXT, EXPECT, L), _cover("cover2", TEXT2, EXPECT2, L)]
+
+
+def _cover(name, text, expect, L):
+    import re
+    comments = sorted(set(re.findall(r"\{([A-Z]{2})\}", " ".join(expect))))
     params, pre, build = [], [], []
     sub = []
-    for c in COMMENTS:
+    for c in comments:
         cs = chars(c.lower() + "_", L)
         params += cs
         pre += [f"({n} >= 33) & ({n} < 0x1680) & ({n} != 0x85) & ({n} != 0xa0)" for n, _ in cs]   # no white space: the parser strips comment text
         body = chr_expr(c.lower() + "_", L)
-        if c == "CH":
+        if f"/* {c} */" in text:
             # a C comment: its text must not contain the terminator
             pre.append(" & ".join(f"({n} != 42)" for n, _ in cs))
             build.append(f"v_{c} = '/* ' + {body} + ' */'")
-            sub.append(f"'/* CH */': v_{c}")
+            sub.append(f"'/* {c} */': v_{c}")
         else:
+            assert f"# {c}" in text, c
             build.append(f"v_{c} = '# ' + {body}")
             sub.append(f"'# {c}': v_{c}")
-    exp = "[" + ", ".join(_expr(ln) for ln in EXPECT) + "]"
+    exp = "[" + ", ".join(_expr(ln) for ln in expect) + "]"
     other = "# o1\nMAP\n  NAME 'o' # o2\n  LAYER\n    TYPE POINT\n    # o3 unattached\n  END\n  # o4 unattached\nEND\n# o5 after the end\n" + "\n" * 20 + "# o6 far below\n"
-    defs = f"\nTEXT = {TEXT!r}\nOTHER = {other!r}\nPLAIN = tsp.plain(mappyfile.loads(TEXT))\n"
+    defs = f"\nTEXT = {text!r}\nOTHER = {other!r}\nPLAIN = tsp.plain(mappyfile.loads(TEXT))\n"
     params = params + [("hist", "bool")]
     src = PRELUDE + defs + harness("h", params, conj(pre), BODY.format(BUILD="\n".join(build), SUB="{" + ", ".join(sub) + "}", EXP=exp))
-    return [Ob(name="C14-PLACE/cover", source=src, pct=900, timeout=1000,
-               meta={"desc": f"12 comments with symbolic text ({L} code points each) at the documented placements: full line list vs committed expectation; content == plain load",
-                     "functions": ["Parser._assign_comments", "CommentsTransformer", "PrettyPrinter._format"], "stubs": ["comment substitution"]})]
+    return Ob(name=f"C14-PLACE/{name}", source=src, pct=900, timeout=1000,
+              meta={"desc": f"{len(comments)} comments with symbolic text ({L} code points each) at the documented placements: full line list vs committed expectation; content == plain load",
+                    "functions": ["Parser._assign_comments", "CommentsTransformer", "PrettyPrinter._format"], "stubs": ["comment substitution"]})
 
 
 def _expr(line):
     import re
     parts, pos = [], 0
-    for m in re.finditer(r"\{(C[A-L])\}", line):
+    for m in re.finditer(r"\{([A-Z]{2})\}", line):
         if m.start() > pos:
             parts.append(repr(line[pos:m.start()]))
         parts.append("v_" + m.group(1))
